@@ -868,12 +868,22 @@ func (e *Exec) wellFormed(term string, t types.Type, depth int) []string {
 	return out
 }
 
+// unrolled: the contract declares the loop `unroll`: its header is an ordinary join block. The loop condition has to
+// fold to a constant at every visit (checked where the branch is taken); otherwise the unit leaves the subset.
+func (e *Exec) unrolled(b *ssa.BasicBlock) bool {
+	return e.contract != nil && b.Parent() == e.fn && e.contract.UnrollLoops[e.loopOrdinal(b)]
+}
+
 func (e *Exec) isHeader(b *ssa.BasicBlock) bool {
 	return b.Parent() == e.fn && e.inLoop[b.Index] != nil
 }
 
 func (e *Exec) block(b *ssa.BasicBlock, pred *ssa.BasicBlock, st *State) {
 	st.trace = append(st.trace, b.Index)
+	e.visits++
+	if e.visits > 400000 {
+		panic("more than 400000 blocks executed (an unrolled loop whose condition does not fold?): out of subset")
+	}
 	// phis
 	predIdx := -1
 	if pred != nil {
@@ -891,7 +901,7 @@ func (e *Exec) block(b *ssa.BasicBlock, pred *ssa.BasicBlock, st *State) {
 		}
 		incoming[phi] = e.val(st, phi.Edges[predIdx])
 	}
-	if e.isHeader(b) {
+	if e.isHeader(b) && !e.unrolled(b) {
 		spec := e.loops[b.Index]
 		if spec == nil && e.contract != nil {
 			spec = e.contractLoop(b)
@@ -1735,6 +1745,7 @@ func (e *Exec) instr(st *State, b *ssa.BasicBlock, ins ssa.Instruction) (stop bo
 				}
 			}
 		}
+		e.boxPayload(st, bx, x.X.Type(), e.val(st, x.X))
 		if e.sorts.SortOf(x.X.Type()) == "String" { // a boxed string can be read back through strOf
 			e.declOnce("(declare-fun strOf (Any) String)")
 			st.assume = append(st.assume, fmt.Sprintf("(= (strOf %s) %s)", bx, e.val(st, x.X)))
@@ -2283,10 +2294,43 @@ func (e *Exec) reflectPE(st *State, c *ssa.Call) (string, bool) {
 		return "rv", true
 	case "(reflect.Value).Interface":
 		rv := st.rvs[arg(0)]
+		if !rv.Valid {
+			panic("reflect Interface on an invalid Value: out of subset")
+		}
 		bx := e.fresh("boxed", "Any")
 		st.boxed[bx] = &BoxInfo{Typ: rv.Typ, Term: rv.Term}
-		st.assume = append(st.assume, fmt.Sprintf("(not (= %s nilAny))", bx))
+		tag := "tag_" + sanitize(types.Unalias(rv.Typ).String())
+		e.declOnce(fmt.Sprintf("(declare-const %s Int)", tag))
+		st.assume = append(st.assume, fmt.Sprintf("(and (= (typeof %s) %s) (not (= %s nilAny)))", bx, tag, bx))
+		if _, isPtr := rv.Typ.Underlying().(*types.Pointer); isPtr {
+			st.assume = append(st.assume, fmt.Sprintf("(= (unboxRef %s) %s)", bx, rv.Term))
+		}
+		e.boxPayload(st, bx, rv.Typ, rv.Term)
 		return bx, true
+	case "(reflect.Value).NumField":
+		rv := st.rvs[arg(0)]
+		stt, ok := rv.Typ.Underlying().(*types.Struct)
+		if !ok {
+			panic("reflect NumField on a non-struct: out of subset")
+		}
+		return fmt.Sprint(stt.NumFields()), true
+	case "(reflect.Value).IsNil":
+		rv := st.rvs[arg(0)]
+		if _, ok := rv.Typ.Underlying().(*types.Pointer); !ok {
+			panic("reflect IsNil on a non-pointer: out of subset")
+		}
+		return fmt.Sprintf("(= %s 0)", rv.Term), true
+	case "(reflect.Value).Elem":
+		rv := st.rvs[arg(0)]
+		pt, ok := rv.Typ.Underlying().(*types.Pointer)
+		if !ok {
+			panic("reflect Elem on a non-pointer: out of subset")
+		}
+		// Elem of a nil pointer is the invalid Value, whose Interface() panics: demanded not to happen
+		e.oblige(st, "nil", fmt.Sprintf("(not (= %s 0))", rv.Term))
+		hn := e.sorts.HeapObj(e.sorts.SortOf(pt.Elem()))
+		st.rvs[c] = &RV{Valid: true, Typ: pt.Elem(), Term: fmt.Sprintf("(select %s %s)", e.heapSym(st, hn), rv.Term)}
+		return "rv", true
 	case "(reflect.StructTag).Lookup", "(reflect.StructTag).Get":
 		tagT := e.val(st, arg(0))
 		lit, err := strconv.Unquote(smtToGo(tagT))
@@ -2326,6 +2370,17 @@ func (e *Exec) reflectPE(st *State, c *ssa.Call) (string, bool) {
 		return fmt.Sprintf("(= %s %s)", rv.Term, e.sorts.Zero(rv.Typ)), true
 	}
 	panic("reflect operation outside the evaluated set: " + f.String())
+}
+
+// boxPayload: the struct value inside an interface value is a function of the interface value (payload_<sort>), so that
+// a contract can speak about the content of a boxed value that was stored in a slice or returned (payload(x, "T")).
+func (e *Exec) boxPayload(st *State, bx string, t types.Type, term string) {
+	if _, ok := t.Underlying().(*types.Struct); !ok {
+		return
+	}
+	srt := e.sorts.SortOf(t)
+	e.declOnce(fmt.Sprintf("(declare-fun payload_%s (Any) %s)", srt, srt))
+	st.assume = append(st.assume, fmt.Sprintf("(= (payload_%s %s) %s)", srt, bx, term))
 }
 
 func isLit(t string) bool {
